@@ -71,7 +71,7 @@ func runC13(t *Trace, r *Rng, tier string, _ []string) {
 	must(err)
 	defer os.RemoveAll(tmpRoot)
 	pointsSeen, pointsRolled := 0, 0
-	midReopens, deleteAlls := 0, 0
+	midReopens, deleteAlls, smallGroups := 0, 0, 0
 	for h := 0; h < nHist; h++ {
 		keep := []int{1, 2, 3, 5, 5}[r.Intn(5)]
 		unsafe := r.Chance(60)
@@ -81,6 +81,13 @@ func runC13(t *Trace, r *Rng, tier string, _ []string) {
 			"numSnapshotsToKeep":     keep,
 			"unsafe_batch":           unsafe,
 			"scorchMergePlanOptions": map[string]interface{}{"maxSegmentsPerTier": 2, "segmentsPerMergeTask": 2, "floorSegmentSize": 1},
+		}
+		if unsafe && r.Chance(50) {
+			// several flush groups per persister round: a group is closed as soon as it holds two segments,
+			// and the persister naps so that segments pile up in memory
+			kv["scorchPersisterOptions"] = map[string]interface{}{"NumPersisterWorkers": 1 + r.Intn(2), "MaxSizeInMemoryMergePerWorker": 1,
+				"PersisterNapTimeMSec": 30, "PersisterNapUnderNumFiles": 1000}
+			smallGroups++
 		}
 		idx, err := bleve.NewUsing(dir, bleve.NewIndexMapping(), scorch.Name, scorch.Name, kv)
 		must(err)
@@ -235,4 +242,5 @@ func runC13(t *Trace, r *Rng, tier string, _ []string) {
 	t.Set("rollback_points_rolled_back_and_reopened", pointsRolled)
 	t.Set("histories_with_close_and_reopen_inside", midReopens)
 	t.Set("delete_everything_batches", deleteAlls)
+	t.Set("histories_with_small_flush_groups", smallGroups)
 }
